@@ -42,7 +42,7 @@ PROPS = {
         explanation="conservation/invariants by induction over operation lists; get loop by a fuel-indexed induction principle",
     ),
     "C01": dict(
-        lean_modules=["Swim.Lemmas.Merge", "Swim.Props.C01"],
+        lean_modules=["Swim.Lemmas.Merge", "Swim.Props.C01", 'Swim.Model.Cluster', 'Swim.Props.Cluster', 'Swim.Props.Projection'],
         tests="^TestC01$",
         shards_quick=8,
         rule='exhaustive table: prior view of n1 (absent/alive/suspect/dead/left x inc 1-3 x aged x timer full) x claim (alive/suspect x2/dead/self-signed dead/push-pull entry in 4 states) x inc 0-4 x address same/other/disallowed/v4-mapped x metadata x version vector x reclaim x allow-list, each executed on a real Memberlist; plus random histories of 1-30 operations; non-trivial = history with at least 3 operations that had an observable effect; distinct = distinct canonical lines',
@@ -50,12 +50,12 @@ PROPS = {
                                   "time abstracted to recent/long-ago classes; Go monotonic clock gives distinct change stamps",
                                   "net.IPNet.Contains as the allow-list predicate; go-msgpack for decoding queued broadcasts in the hook"],
         assumptions=["calls are serialised by nodeLock (no concurrency in the model)", "incarnations below 2^32-1 where stated"],
-        level_text='Proof: Lean theorems over the merge-rule model (frame, forward in the precedence order, stale claims are no-ops, regression only by legitimate takeover; per alive/suspect/dead claim, push/pull entries and the timer callback) tied to state.go by an exhaustive small-scope table plus random histories run on the real aliveNode/suspectNode/deadNode/mergeState.',
-        level_note='Trusted: Lean kernel; model = code outside the enumerated scope; abstraction of addresses/metadata/time to codes and classes; harness/driver. History-level monotonicity is stated per step (and per push/pull entry), not yet as a single induction over operation lists.',
+        level_text='Proof: Lean theorems over the merge-rule model (frame, forward in the precedence order, stale claims are no-ops, regression only by legitimate takeover; per alive/suspect/dead claim, push/pull entries and the timer callback); C01_history: by induction over every operation sequence the view of any other member only moves forward except at a named takeover/reap step; C01_cluster_forward: the same for every node of every history of the cluster model (projection theorem: a cluster history restricted to one node is a single-node history). Tied to state.go by an exhaustive small-scope table plus random histories run on the real aliveNode/suspectNode/deadNode/mergeState.',
+        level_note='Trusted: Lean kernel; model = code outside the enumerated scope; abstraction of addresses/metadata/time to codes and classes; harness/driver.',
         engine="step-harness",
     ),
     "C02": dict(
-        lean_modules=["Swim.Lemmas.Merge", "Swim.Props.C02", 'Swim.Model.Cluster', 'Swim.Props.Cluster', 'Swim.Props.ClusterG', 'Swim.Props.C02Cluster'],
+        lean_modules=["Swim.Lemmas.Merge", "Swim.Props.C02", 'Swim.Model.Cluster', 'Swim.Props.Cluster', 'Swim.Props.ClusterG', 'Swim.Props.C02Cluster', 'Swim.Props.Projection'],
         tests="^TestC02$",
         shards_quick=8,
         rule='table with the local node as target (own incarnation 1-3, left or not) x the same claim dimensions as C01, plus random histories in which 70% of the claims are about the local node incl. far-ahead and 2^32-2 / 2^32-1 incarnations; non-trivial/distinct as C01',
@@ -68,7 +68,7 @@ PROPS = {
         engine="step-harness",
     ),
     "C07": dict(
-        lean_modules=["Swim.Lemmas.Merge", "Swim.Props.C07"],
+        lean_modules=["Swim.Lemmas.Merge", "Swim.Props.C07", 'Swim.Model.Cluster', 'Swim.Props.Cluster', 'Swim.Props.Projection'],
         tests="^TestC07$",
         shards_quick=8,
         rule='random histories of 1-40 operations of every kind (claims, merges, timer callbacks incl. stale ones, reaping, UpdateNode, Leave, ageing); the event log of every step is replayed on the Members() view before the step and compared with Members() after it (names, address, metadata); non-trivial/distinct as C01',
@@ -76,7 +76,7 @@ PROPS = {
                                   "time abstracted to recent/long-ago classes; Go monotonic clock gives distinct change stamps",
                                   "net.IPNet.Contains as the allow-list predicate; go-msgpack for decoding queued broadcasts in the hook"],
         assumptions=["calls are serialised by nodeLock (no concurrency in the model)", "incarnations below 2^32-1 where stated"],
-        level_text='Proof (partial): event/Members() synchronisation is checked on the implementation for every step of every generated history by an executable predicate, and the model agrees with the implementation on every step; the Lean theorems cover the per-rule event facts. Serialisation of callbacks is a structural fact (Notify* only under nodeLock) checked by the fact extractor.',
+        level_text='Proof: C07_history - over every operation sequence of the model (claims by every path, merges, timer expiries, reaping, UpdateNode, Leave) replaying the event log on the initially listed set yields exactly the finally listed set (induction, invariant: unique names + own record present); C07_cluster_sync: the same for the log of every node of every cluster history (projection). Event/Members() synchronisation is also evaluated on the implementation for every step of every generated history, and the model agrees with the implementation on every step. Serialisation of callbacks is a structural fact (Notify* only under nodeLock) checked by the fact extractor and a concurrent-callback probe.',
         level_note="Trusted: as C01; Go's sync.RWMutex for non-concurrency of callbacks.",
         engine="step-harness",
     ),
@@ -94,7 +94,7 @@ PROPS = {
         engine="step-harness",
     ),
     "C18": dict(
-        lean_modules=["Swim.Lemmas.Merge", "Swim.Props.C18"],
+        lean_modules=["Swim.Lemmas.Merge", "Swim.Props.C18", 'Swim.Model.Cluster', 'Swim.Props.Cluster', 'Swim.Props.Projection'],
         tests="^TestC18$",
         shards_quick=8,
         rule='random histories with the allow-list on (10.0.0.0/8, fd00::/8) and half of the claimed addresses drawn from outside / malformed / IPv6 / v4-mapped classes, over direct alive claims, push/pull entries, address changes and name reclaims; every record and join event after every step must carry an allowed address; non-trivial/distinct as C01',
@@ -102,7 +102,7 @@ PROPS = {
                                   "time abstracted to recent/long-ago classes; Go monotonic clock gives distinct change stamps",
                                   "net.IPNet.Contains as the allow-list predicate; go-msgpack for decoding queued broadcasts in the hook"],
         assumptions=["calls are serialised by nodeLock (no concurrency in the model)", "incarnations below 2^32-1 where stated"],
-        level_text='Proof: allowed-address invariant of the record table over the merge-rule model for an arbitrary allow predicate, tied by histories on the real code with real net.IPNet lists; the UDP source gate (handleAlive) is exercised by the packet harness leg.',
+        level_text='Proof: allowed-address invariant of the record table over the merge-rule model for an arbitrary allow predicate, for every operation sequence (C18_history) and for every node of every cluster history (C18_cluster_allowed, by projection); tied by histories on the real code with real net.IPNet lists; the UDP source gate (handleAlive) is exercised by the packet harness leg.',
         level_note='Trusted: as C01; net.IPNet.Contains.',
         engine="step-harness",
     ),
@@ -255,7 +255,7 @@ PROPS = {
         engine="codec-harness+fact-extractor",
     ),
     "C03": dict(
-        lean_modules=['Swim.Model.Probe', 'Swim.Model.Susp', 'Swim.Lemmas.Merge', 'Swim.Props.C06', 'Swim.Props.C03'],
+        lean_modules=['Swim.Model.Probe', 'Swim.Model.Susp', 'Swim.Lemmas.Merge', 'Swim.Props.C06', 'Swim.Props.C03', 'Swim.Model.Cluster', 'Swim.Props.Cluster', 'Swim.Props.ClusterG', 'Swim.Props.Projection', 'Swim.Props.C03Cluster'],
         tests="^TestC03$",
         timeout_quick=400,
         shards_quick=4,
@@ -264,7 +264,7 @@ PROPS = {
                                   "the simulator transport (non-blocking delivery, latency/loss/duplication/partition injection, net.Pipe streams)",
                                   "math/rand target selection is seeded but goroutine scheduling is not fully deterministic: the recorded outcome is the replay artifact"],
         assumptions=["goroutine scheduling delays and real network timing are not modelled (virtual time)"],
-        level_text='Proof (partial): probe target is never self or dead, each eligible peer is returned in list order before the wrap-around (pass_step), the local and listed records survive reaping, the stale-timer and timeout bounds of C06, monotonicity of the bound (Lean). Tied by an exact cursor correspondence on the real probe() and by crash simulations in virtual time against the bound.',
+        level_text='Proof (partial): probe target is never self or dead, each eligible peer is returned in list order before the wrap-around (pass_step), the local and listed records survive reaping, the stale-timer and timeout bounds of C06, monotonicity of the bound; C03_own_evidence / C03_cluster_own_evidence: in any cluster state, whatever the other nodes do, one unanswered probe of a member held alive followed by the expiry of the suspicion it started leaves the prober not listing the member, with a leave event and a dead broadcast signed by the prober (Lean). Tied by an exact cursor correspondence on the real probe(), by the step harness (suspicion and timer callback on the real code) and by crash simulations in virtual time against the bound, with the cluster-invariant monitor on the wire.',
         level_note="Partial: the time per probe tick (awareness-scaled interval), the ticker and TCP-fallback timing are observed in virtual time, not derived; the bound is measured from the later of the crash and the survivor's last join/update event for the member.",
         engine="cluster-simulator",
     ),
